@@ -198,6 +198,8 @@ int32 matrixSslDecodeTls13(ssl_t *ssl,
     if (ssl->flags & SSL_FLAGS_NEED_ENCODE)
     {
         ssl->flags &= ~SSL_FLAGS_NEED_ENCODE;
+        /* encodeResponse reports pb.buf.start back through *in */
+        (void)psParseBufFromStaticData(&pb, *in, *len);
         goto encodeResponse;
     }
 
